@@ -29,3 +29,4 @@ def check(run, model, tier):
     hsmrules.query_rules(run, model)
     run.assume('between steps temp.fun == state.fun (I1, established by init and dispatch) so is_in starts at the current state')
     run.assume('H1: SUPER queries run no action')
+    hsmrules.protocol_census(run, model)
